@@ -175,6 +175,7 @@ static void gen_params(const char *profile, uint64_t base, long idx)
 		P.m_absorbing = PICK(&rm, 0, 1, 1);
 		P.m_extra = 10;
 		P.m_budget = PICK(&rm, 1, 8, 30, 100);
+		P.stats = PICK(&rc, 0, 0, 1);
 	} else if(!strcmp(profile, "c14")) {
 		/* ownership sweep: the run ends at once; the triple is what matters */
 		P.m_pred = 0;
